@@ -438,8 +438,8 @@ NAME_FAMILIES = ["Gaussian", "Normal", "Gamma", "LMRF", "GMRF", "RegularizedGaus
 @st.composite
 def name_cases(draw, tier="quick"):
     return {"family": draw(st.sampled_from(NAME_FAMILIES)), "explicit": draw(st.booleans()), "lookup_first": draw(st.booleans()),
-            "two_steps": draw(st.booleans()), "order": draw(st.booleans()), "m": draw(gen.fl(-1, 1)), "s": draw(gen.fl(0.3, 2.0)),
-            "value": draw(gen.vec(3, 0.1, 1.0)), "then_self": draw(st.booleans())}
+            "two_steps": draw(st.sampled_from([True, True, False])), "order": draw(st.booleans()), "m": draw(gen.fl(-1, 1)), "s": draw(gen.fl(0.3, 2.0)),
+            "value": draw(gen.vec(3, 0.1, 1.0)), "then_self": draw(st.sampled_from([True, True, False]))}
 
 
 def _named_family(c, nm):
@@ -477,7 +477,8 @@ def run_names(c, rec):
     """a conditioned copy reports the random-variable name of its original - whether that name was given explicitly or is the Python
     variable the original is bound to, whether or not it had been looked up before, and through several conditioning steps"""
     import cuqi
-    tags = {"family": c["family"], "name": "explicit" if c["explicit"] else "variable", "lookup_first": c["lookup_first"], "steps": 2 if c["two_steps"] else 1}
+    tags = {"family": c["family"], "name": "explicit" if c["explicit"] else "variable", "lookup_first": c["lookup_first"], "steps": 2 if c["two_steps"] else 1,
+            "then_self": bool(c["then_self"])}
     if rec.classify(tags, True):
         return
     want = "qq" if c["explicit"] else "prior_q"
@@ -585,6 +586,6 @@ def run_observe(c, rec):
 SUBCHECKS = [
     SubCheck("C11/immutability_machine", run_trace, machine=make_machine, n={"quick": 600, "thorough": 6000}, shards={"quick": 12, "thorough": 16},
              steps={"quick": 25, "thorough": 50}),
-    SubCheck("C11/inspection", run_observe, strategy=observe_cases, n={"quick": 400, "thorough": 6000}, shards={"quick": 2, "thorough": 8}),
-    SubCheck("C11/copy_names", run_names, strategy=name_cases, n={"quick": 400, "thorough": 6000}, shards={"quick": 2, "thorough": 8}),
+    SubCheck("C11/inspection", run_observe, strategy=observe_cases, n={"quick": 1200, "thorough": 6000}, shards={"quick": 2, "thorough": 8}),
+    SubCheck("C11/copy_names", run_names, strategy=name_cases, n={"quick": 2000, "thorough": 6000}, shards={"quick": 2, "thorough": 8}),
 ]
